@@ -1,8 +1,207 @@
-//! C19 runner (stub). Replace the body; keep the signature `pub fn run(args: &[String])`.
-#[allow(unused_imports)]
-use crate::common::{catch, each_line, opt_i64};
+//! C19: run the real position arithmetic.
+//!   src/lsp/diagnostics.rs: offset_to_position, position_to_offset, span_to_range,
+//!     compile_error_to_diagnostic (its `range` must be span_to_range's);
+//!   crates/incan_syntax/src/diagnostics.rs: get_line_info + the caret arithmetic, observed through
+//!     the public format_error (location line, source line, caret line are parsed back).
+//! Input lines (doc = comma-separated decimal scalar values, `-` = empty document):
+//!   o2p <doc> <offset>          -> `l c`
+//!   p2o <doc> <line> <char>     -> `<offset>` | `-1`
+//!   rng <doc> <start> <end>     -> `sl sc el ec`
+//!   car <doc> <start> <end>     -> `line col spaces carets text...`
+//!   tab <doc> <K>               -> the whole table of the document as one flat integer list, in
+//!                                  the order of `table` in coq/C19/Model.v
+//! A panic is rendered as `-9` fillers (same arity as in Model.v) followed by `# <message>`;
+//! a diagnostic whose range differs from span_to_range as `X ...`.
+use crate::common::{catch, each_line};
+use incan::frontend::ast::Span;
+use incan::frontend::diagnostics::{format_error, CompileError};
+use incan::lsp::diagnostics::{compile_error_to_diagnostic, offset_to_position, position_to_offset, span_to_range};
+use tower_lsp::lsp_types::{Position, Url};
+
+const TRAP: i64 = -9;
+
+fn parse_doc(s: &str) -> String {
+    if s == "-" {
+        return String::new();
+    }
+    s.split(',')
+        .map(|x| char::from_u32(x.parse::<u32>().expect("scalar")).expect("not a scalar value"))
+        .collect()
+}
+
+fn o2p(src: &str, o: usize) -> Result<[i64; 2], String> {
+    catch(|| {
+        let p = offset_to_position(src, o);
+        [p.line as i64, p.character as i64]
+    })
+}
+
+fn p2o(src: &str, l: u32, c: u32) -> Result<i64, String> {
+    catch(|| match position_to_offset(src, Position::new(l, c)) {
+        Some(o) => o as i64,
+        None => -1,
+    })
+}
+
+/// span_to_range plus the same span through compile_error_to_diagnostic (Err(Ok(..)) = they differ)
+fn rng(src: &str, a: usize, b: usize, uri: &Url) -> Result<Result<[i64; 4], String>, String> {
+    catch(|| {
+        let r = span_to_range(src, a, b);
+        let e = CompileError::new("m".to_string(), Span::new(a, b));
+        let d = compile_error_to_diagnostic(&e, src, uri);
+        if d.range != r {
+            return Err(format!("X span_to_range={:?} diagnostic.range={:?}", r, d.range));
+        }
+        Ok([
+            r.start.line as i64,
+            r.start.character as i64,
+            r.end.line as i64,
+            r.end.character as i64,
+        ])
+    })
+}
+
+struct Caret {
+    line: i64,
+    col: i64,
+    text: Vec<i64>,
+    spaces: i64,
+    carets: i64,
+}
+
+/// format_error and parse back what get_line_info and the caret arithmetic produced
+fn car(src: &str, a: usize, b: usize) -> Result<Caret, String> {
+    catch(|| {
+        let e = CompileError::new("m".to_string(), Span::new(a, b));
+        let out = format_error("f", src, &e);
+        let ls: Vec<&str> = out.split('\n').collect();
+        assert!(ls.len() >= 5, "format_error: unexpected shape {:?}", out);
+        let loc = ls[1].split("-->\x1b[0m f:").nth(1).expect("location line");
+        let mut lc = loc.split(':');
+        let line: i64 = lc.next().unwrap().parse().expect("line");
+        let col: i64 = lc.next().unwrap().parse().expect("col");
+        let gutter = " |\x1b[0m ";
+        let tpos = ls[3].find(gutter).expect("source line") + gutter.len();
+        let text: Vec<i64> = ls[3][tpos..].chars().map(|c| c as i64).collect();
+        let cpos = ls[4].find(gutter).expect("caret line") + gutter.len();
+        let rest = &ls[4][cpos..];
+        let esc = rest.find('\x1b').expect("caret colour");
+        let spaces = &rest[..esc];
+        assert!(spaces.chars().all(|c| c == ' '), "caret padding {:?}", spaces);
+        let after = &rest[esc..];
+        let m = after.find('m').expect("colour end") + 1;
+        let tail = &after[m..];
+        let end = tail.find('\x1b').expect("reset");
+        let carets = &tail[..end];
+        assert!(carets.chars().all(|c| c == '^'), "carets {:?}", carets);
+        Caret {
+            line,
+            col,
+            text,
+            spaces: spaces.len() as i64,
+            carets: carets.len() as i64,
+        }
+    })
+}
+
+fn join(v: &[i64]) -> String {
+    v.iter().map(|x| x.to_string()).collect::<Vec<_>>().join(" ")
+}
+
+fn table(src: &str, k: u32, uri: &Url) -> String {
+    let mut out: Vec<i64> = Vec::new();
+    let mut notes: Vec<String> = Vec::new();
+    let n = src.len() + 2;
+    for o in 0..n {
+        match o2p(src, o) {
+            Ok(p) => out.extend_from_slice(&p),
+            Err(m) => {
+                out.extend_from_slice(&[TRAP, TRAP]);
+                notes.push(m);
+            }
+        }
+    }
+    for l in 0..=k {
+        for c in 0..=k {
+            match p2o(src, l, c) {
+                Ok(v) => out.push(v),
+                Err(m) => {
+                    out.push(TRAP);
+                    notes.push(m);
+                }
+            }
+        }
+    }
+    for o in 0..n {
+        match car(src, o, o) {
+            Ok(c) => {
+                out.push(c.line);
+                out.push(c.col);
+                out.push(c.text.len() as i64);
+                out.extend_from_slice(&c.text);
+            }
+            Err(m) => {
+                out.extend_from_slice(&[TRAP, TRAP, 0]);
+                notes.push(m);
+            }
+        }
+    }
+    for a in 0..n {
+        for b in 0..n {
+            match car(src, a, b) {
+                Ok(c) => out.extend_from_slice(&[c.spaces, c.carets]),
+                Err(m) => {
+                    out.extend_from_slice(&[TRAP, TRAP]);
+                    notes.push(m);
+                }
+            }
+            match rng(src, a, b, uri) {
+                Ok(Ok(r)) => out.extend_from_slice(&r),
+                Ok(Err(x)) => return x,
+                Err(m) => {
+                    out.extend_from_slice(&[TRAP, TRAP, TRAP, TRAP]);
+                    notes.push(m);
+                }
+            }
+        }
+    }
+    let mut s = join(&out);
+    if let Some(m) = notes.first() {
+        s.push_str(" # ");
+        s.push_str(m);
+    }
+    s
+}
 
 pub fn run(_args: &[String]) {
-    eprintln!("c19: runner not implemented");
-    std::process::exit(2);
+    let uri = Url::parse("file:///f.incn").expect("url");
+    each_line(|line| {
+        let p: Vec<&str> = line.split_whitespace().collect();
+        let src = parse_doc(p[1]);
+        match p[0] {
+            "o2p" => match o2p(&src, p[2].parse().expect("offset")) {
+                Ok(v) => join(&v),
+                Err(m) => format!("{} {} # {}", TRAP, TRAP, m),
+            },
+            "p2o" => match p2o(&src, p[2].parse().expect("line"), p[3].parse().expect("char")) {
+                Ok(v) => v.to_string(),
+                Err(m) => format!("{} # {}", TRAP, m),
+            },
+            "rng" => match rng(&src, p[2].parse().expect("start"), p[3].parse().expect("end"), &uri) {
+                Ok(Ok(v)) => join(&v),
+                Ok(Err(x)) => x,
+                Err(m) => format!("{0} {0} {0} {0} # {1}", TRAP, m),
+            },
+            "car" => match car(&src, p[2].parse().expect("start"), p[3].parse().expect("end")) {
+                Ok(c) => {
+                    let mut v = vec![c.line, c.col, c.spaces, c.carets];
+                    v.extend_from_slice(&c.text);
+                    join(&v)
+                }
+                Err(m) => format!("{} # {}", TRAP, m),
+            },
+            "tab" => table(&src, p[2].parse().expect("K"), &uri),
+            other => format!("E unknown op {}", other),
+        }
+    });
 }
